@@ -16,6 +16,23 @@
 //! Errors during execution are encapsulated in the `GrevmError` type, which includes the
 //! transaction ID and the underlying EVM error. This allows for precise debugging and error
 //! reporting.
+/// Schedule point before a shared-memory operation (expands to nothing without `grevm_verif`).
+macro_rules! vpoint {
+    ($g:ident, $label:literal) => {
+        #[cfg(grevm_verif)]
+        $crate::verif::point($crate::verif::group::$g, $label);
+    };
+}
+/// Event describing the operation just performed (expands to nothing without `grevm_verif`).
+macro_rules! vemit {
+    ($g:ident, $label:literal $(, $k:literal => $v:expr)* $(,)?) => {
+        #[cfg(grevm_verif)]
+        $crate::verif::emit($crate::verif::group::$g, $label, || {
+            vec![$(($k, $crate::verif::Val::from($v))),*]
+        });
+    };
+}
+
 mod account;
 mod beneficiary;
 mod bundle;
@@ -30,6 +47,8 @@ mod scheduler;
 #[cfg(feature = "test-utils")]
 pub mod test_utils;
 mod tx_dependency;
+#[cfg(grevm_verif)]
+pub mod verif;
 
 pub(crate) use model::{
     AbortReason, AccountBasic, LocationAndType, MVMemory, MemoryEntry, MemoryValue, ReadVersion,
